@@ -7,6 +7,8 @@
 //! * `sym`   — symbolic strings of concrete length
 #![allow(clippy::all)]
 
+#[cfg(kani)]
+pub mod call;
 pub mod doc;
 pub mod echo;
 pub mod env;
